@@ -36,7 +36,7 @@ CONSTANTS NKind(_),          \* node -> kind
           NoNode,            \* the absent node (None)
           SlotTag(_),        \* node -> tag if the node is a slot marker __FST_<tag>, "-" otherwise
           IsListField(_, _), \* (kind, field) -> the field is a list field
-          KindCat(_),        \* kind -> "stmt" | "expr" | "keyword" | "withitem" | "other"
+          KindCat(_),        \* kind -> "stmt" | "expr" | "keyword" | "withitem" | "arguments" | "other"
           Dots(_)            \* node -> it is the string constant '...' (pair-slot marker)
 
 (* ------------------------------------------------------------------------ *)
@@ -82,6 +82,7 @@ WithLike(K, m, g) == CapT(K, m, g) = "missing" \/ CapCat(K, m, g) = "withitem"
 NoSlot == [g |-> "-", comp |-> 1, form |-> "none"]
 SlotOf(K, m, t, fn, j, c) ==
   CASE SlotTag(c) # "-" /\ fn = "values" /\ PairSlotAt(t, j) -> [g |-> SlotTag(c), comp |-> 2, form |-> "pair"]
+    [] SlotTag(c) # "-" /\ NKind(c) = "arg" -> [g |-> SlotTag(c), comp |-> 1, form |-> "args"]
     [] SlotTag(c) # "-" -> [g |-> SlotTag(c), comp |-> 1, form |-> "expr"]
     [] fn = "keys" /\ PairSlotAt(t, j) -> [g |-> SlotTag(FieldC(t, "values")[j]), comp |-> 1, form |-> "pair"]
     [] NKind(c) = "Expr" /\ SlotTag(ValueOf(c, "value")) # "-" /\ StmtLike(K, m, SlotTag(ValueOf(c, "value")))
@@ -101,6 +102,21 @@ FlattenSameOpBoolOp(K, m, t, fn, g) ==
   /\ NKind(t) = "BoolOp" /\ fn = "values" /\ CapT(K, m, g) = "node"
   /\ LET x == IF g = "" THEN K.M[m].x ELSE CapOf(K, m, g).el[1][1].s
      IN NKind(x) = "BoolOp" /\ NKind(ValueOf(x, "op")) = NKind(ValueOf(t, "op"))
+
+(* SpliceArguments: a parameter `__FST_tag` of a template `arguments` that    *)
+(* receives an `arguments` node (e.g. the whole match of Marguments) stands    *)
+(* for its parameters.  Modelled for PLAIN parameter lists only (positional-   *)
+(* or-keyword parameters without defaults, no / * ** parts), where the result  *)
+(* is simply the spliced `args` list; everything else (`args_as` coercions) is *)
+(* outside the domain (SlotFits).                                             *)
+PlainArgs(x) == /\ NKind(x) = "arguments"
+                /\ FieldC(x, "posonlyargs") = <<>> /\ FieldC(x, "kwonlyargs") = <<>>
+                /\ FieldC(x, "kw_defaults") = <<>> /\ FieldC(x, "defaults") = <<>>
+                /\ ValueOf(x, "vararg") = NoNode /\ ValueOf(x, "kwarg") = NoNode
+CapNode(K, m, g) == IF g = "" THEN [s |-> K.M[m].x, p |-> K.M[m].p] ELSE CapOf(K, m, g).el[1][1]
+SpliceArguments(K, m, t, fn, g) ==
+  /\ NKind(t) = "arguments" /\ fn = "args" /\ CapT(K, m, g) = "node"
+  /\ NKind(CapNode(K, m, g).s) = "arguments"
 
 RECURSIVE TopItems(_, _, _)
 RECURSIVE CapItems(_, _, _, _, _)
@@ -134,6 +150,8 @@ SlotExpand(K, m, t, fn, j, c, list, flat) ==
   ELSE IF flat /\ s.form = "expr" /\ FlattenSameOpBoolOp(K, m, t, fn, s.g)
        THEN LET e == IF s.g = "" THEN [s |-> K.M[m].x, p |-> K.M[m].p] ELSE CapOf(K, m, s.g).el[1][1]
             IN Children(K, m, e.s, e.p, "values", TRUE)
+  ELSE IF s.form = "args" /\ SpliceArguments(K, m, t, fn, s.g)
+       THEN Children(K, m, CapNode(K, m, s.g).s, CapNode(K, m, s.g).p, "args", TRUE)
   ELSE CapItems(K, m, s.g, list \/ s.form \in {"stmt", "with", "pair"}, s.comp)
 
 RawFieldItems(K, m, t, fn, flat) ==
@@ -280,6 +298,8 @@ SlotFits(K, m, t, fn, s, list) ==
   ELSE CASE s.form = "pair" -> cat = "pair"
          [] s.form = "stmt" -> cat = "stmt"
          [] s.form = "with" -> cat = "withitem"
+         [] s.form = "args" -> /\ ty = "node" /\ cat = "arguments" /\ fn = "args"
+                               /\ PlainArgs(t) /\ PlainArgs(CapNode(K, m, s.g).s)
          [] OTHER ->
             IF ty = "node"
             THEN cat = "expr" \/ (cat = "keyword" /\ NKind(t) \in {"Call", "ClassDef"} /\ fn = ArgField(t))
@@ -321,9 +341,9 @@ CapKinds(K, m, g) == IF g = "" THEN {NKind(K.M[m].x)}
 (* the template has the syntactic category of what it replaces                *)
 CatFits(K, m) ==
   LET mc == KindCat(NKind(K.M[m].x)) IN
-  /\ mc \in {"stmt", "expr"}
+  /\ mc \in {"stmt", "expr", "arguments"}
   /\ \A j \in 1..Len(K.T) : KindCat(NKind(K.T[j])) = mc
-  /\ (mc = "expr" => Len(K.T) = 1)
+  /\ (mc # "stmt" => Len(K.T) = 1)
 
 SlotsFit(K, m, list) == CatFits(K, m) /\ TopFits(K, m, list)
 
